@@ -410,6 +410,6 @@ PROPS = {
                 extra=[x_c13_4g],
                 theorems=T("C13", "oneshot", "stream", "stream_reset") + T("C19", "c19_accept_iff", "c19_spec") + T("C09", "c09_writer")),
     "C14": dict(runs=[dict(CMP, judge=j_c14b), FW("conc", judge=j_c08, env={"VERIF_SCHED": "4"}), FW("fw", judge=j_and(j_c02w, j_notes(r"DIFFERS-FROM-FRESH-WRITER", "the frame depends on how the stream was split into Write calls / on the object's past", "one frame per (options, data)")), env={"VERIF_SCHED": "5"}),
-                      FW("fwlife", judge=j_c17w)],   # the output is a function of options and data, whatever the object did before
+                      FW("fwlife", judge=j_c17w), POOL_FAM],   # the output is a function of options and data, whatever the object or the pools did before
                 extra=[x_c14_groups], theorems=T_C14 + T_OBJ + T("C08", "W.order_final")),
 }
